@@ -100,6 +100,17 @@ example : Conf OpmVerif.DeckIO.conv idFmt demoSchema demoRecord := by
     by decide, ⟨_, rfl, rfl⟩, by decide, ⟨_, rfl, confVal_int _ _ rfl _ (by decide) (by decide)⟩,
     by decide, ⟨_, rfl, rfl⟩, by decide, ⟨_, rfl, rfl⟩, trivial⟩
 
+example : ∀ t ∈ emitToks idFmt false false 0 demoRecord.flatten, Atomic t ∧ evenQuotes t = true := by
+  have e : emitToks idFmt false false 0 demoRecord.flatten = [b "'P 1/*'", b "3*", b "-12"] := by decide +kernel
+  rw [e]
+  intro t ht
+  simp only [List.mem_cons, List.mem_nil_iff, or_false] at ht
+  rcases ht with rfl | rfl | rfl
+  · have e2 : b "'P 1/*'" = quoted (b "P 1/*") := by decide +kernel
+    rw [e2]; exact atomic_quoted (b "P 1/*") (by decide +kernel)
+  · exact ⟨Or.inl (by decide +kernel), by decide +kernel⟩
+  · exact ⟨Or.inl (by decide +kernel), by decide +kernel⟩
+
 example : demoRecord.flatten.length ≤ 2147483647 ∧
     (pend false false 0 demoRecord.flatten = 0 ∨ demoRecord.flatten.length ≤ singlePrefix demoSchema) := by decide +kernel
 
